@@ -380,6 +380,8 @@ impl<'a> Lexer<'a> {
     ) -> TokenValue<'a> {
         let mut iter = self.s[self.l..self.u].chars();
         let mut n = initial_value;
+        // Set if the integer part does not fit in an i32.
+        let mut overflow = false;
         let mut parsing_n = true;
         let mut d = [0_u8; 17];
         let mut next_d = 0_usize;
@@ -388,8 +390,10 @@ impl<'a> Lexer<'a> {
                 Some(c @ '0'..='9') => {
                     let i = (c as i32) - ('0' as i32);
                     if parsing_n {
-                        n = n.checked_mul(10).unwrap();
-                        n = n.checked_add(i).unwrap();
+                        match n.checked_mul(10).and_then(|n| n.checked_add(i)) {
+                            Some(m) => n = m,
+                            None => overflow = true,
+                        }
                     } else {
                         if let Some(d) = d.get_mut(next_d) {
                             *d = i.try_into().expect("i in [0,9]")
@@ -418,21 +422,43 @@ impl<'a> Lexer<'a> {
                         self.l += n.len_utf8();
                     }
 
-                    let mut s = common::Scaled::from_decimal_digits(&d) + common::Scaled::ONE * n;
-                    if negative {
-                        s.0 *= -1;
-                    }
                     let raw_unit = &self.s[u..self.l];
+                    let number = Str {
+                        value: self.s,
+                        start: start_idx,
+                        end: self.l,
+                    };
+                    let fraction = common::Scaled::from_decimal_digits(&d);
                     if let Some(unit) = common::ScaledUnit::parse(raw_unit) {
-                        let mut s =
-                            common::Scaled::new(n, common::Scaled::from_decimal_digits(&d), unit)
-                                .unwrap();
+                        let s = if overflow {
+                            None
+                        } else {
+                            common::Scaled::new(n, fraction, unit).ok()
+                        };
+                        let Some(mut s) = s else {
+                            self.errs.add(Error::NumberOutOfRange { number });
+                            return TokenValue::Scaled(common::Scaled::ZERO);
+                        };
                         if negative {
                             s = -s;
                         }
                         return TokenValue::Scaled(s);
                     }
                     if let Some(glue_order) = common::GlueOrder::parse(raw_unit) {
+                        // As in TeX.2021.454 the value must be less than 2^30 scaled units.
+                        let s = if overflow || n >= (1 << 14) {
+                            None
+                        } else {
+                            Some(fraction + common::Scaled::ONE * n)
+                                .filter(|s| *s <= common::Scaled::MAX_DIMEN)
+                        };
+                        let Some(mut s) = s else {
+                            self.errs.add(Error::NumberOutOfRange { number });
+                            return TokenValue::InfiniteGlue(common::Scaled::ZERO, glue_order);
+                        };
+                        if negative {
+                            s = -s;
+                        }
                         return TokenValue::InfiniteGlue(s, glue_order);
                     }
                     self.errs.add(Error::InvalidDimensionUnit {
@@ -459,6 +485,16 @@ impl<'a> Lexer<'a> {
                             },
                         });
                         return TokenValue::Scaled(common::Scaled::ZERO);
+                    }
+                    if overflow {
+                        self.errs.add(Error::NumberOutOfRange {
+                            number: Str {
+                                value: self.s,
+                                start: start_idx,
+                                end: self.l,
+                            },
+                        });
+                        return TokenValue::Integer(0);
                     }
                     if negative {
                         n *= -1;
